@@ -389,7 +389,7 @@ class CookieJar(AbstractCookieJar):
                     cookie["max-age"] = ""
 
             elif expires := cookie["expires"]:
-                if expire_time := self._parse_date(expires):
+                if (expire_time := self._parse_date(expires)) is not None:
                     self._expire_cookie(expire_time, domain, path, name)
                 else:
                     cookie["expires"] = ""
